@@ -9,7 +9,8 @@ EXTENDS Progs0, TLC
 CONSTANTS QFamily, QMaxW
 
 Bodies == {p \in AllPS(QFamily, QMaxW) : WellFormed(p) /\ ~IsBad(Eff(p)) /\ Eff(p).need <= 3}
-Stacks == {<<IntV(1)>>, <<IntV(2), WithPos(IntV(1), 3)>>, <<SeqV(<<IntV(1)>>), IntV(2), IntV(3)>>}
+Stacks == {<<IntV(1)>>, <<IntV(2), WithPos(IntV(1), 3)>>, <<SeqV(<<IntV(1)>>), IntV(2), IntV(3)>>,
+           <<WithPos(SeqV(<<IntV(1)>>), 1), WithPos(IntV(2), 2)>>}
 D(p, s) == Den(p, EmptyEnv, s)
 Outs(x) == [j \in 1..Len(x.out) |-> x.out[j].s]
 
